@@ -77,8 +77,9 @@ class CircuitBreaker:
             return self._state
 
     def allow(self) -> _BreakerDecision:
-        now = self._clock()
         with self._lock:
+            # Read the clock under the lock so instants are compared and stored in lock order.
+            now = self._clock()
             if self._state is CircuitState.OPEN:
                 opened_at = self._opened_at
                 if opened_at is None:
@@ -113,8 +114,8 @@ class CircuitBreaker:
             return None
 
     def record_failure(self, klass: ErrorClass) -> str | None:
-        now = self._clock()
         with self._lock:
+            now = self._clock()
             if self._state is CircuitState.HALF_OPEN:
                 self._state = CircuitState.OPEN
                 self._opened_at = now
